@@ -142,9 +142,12 @@ def build_value(spec):
         return M.Integer(10 ** 5000)
     if k == "badmodel":
         if "BadModel" not in globals():
-            class BadModel(M.Object):
+            class BadBase:
                 def __repr__(self):
                     raise ValueError("this model cannot be shown")
+
+            class BadModel(M.Object, BadBase):       # _base-repr uses the __repr__ of the first non-model base class
+                pass
             globals()["BadModel"] = BadModel
         return globals()["BadModel"]()
     if k == "deep":
